@@ -3918,3 +3918,8 @@ mod tests {
         assert!(rendered.contains("<redacted>"), "rendered = {rendered}");
     }
 }
+
+#[cfg(kani)]
+mod verif_kani {
+    include!(concat!(env!("REPE_VERIF_KANI"), "/websocket_server.rs"));
+}
